@@ -168,6 +168,23 @@ class Engine:
             argnames.append(fdef.args.kwarg.arg)
         missing = [a for a in argnames if a not in contract.params]
         extra = [p for p in contract.params if p not in argnames]
+        if missing and len(argnames) == len(contract.params) and not (fdef.args.vararg or fdef.args.kwarg):
+            # parameters renamed (same number, same positions): alpha-rename the body to the contract's names -- a renamed
+            # parameter is a harmless refactor, the obligations must still be generated.  Only when the contract's name is not
+            # used for anything else in the function.
+            ren = {a: p for a, p in zip(argnames, contract.params) if a != p}
+            used = {n.id for n in ast.walk(fdef) if isinstance(n, ast.Name)} | set(argnames)
+            if all(p not in used for p in ren.values()):
+                import copy as _copy
+                fdef = _copy.deepcopy(fdef)
+                for n in ast.walk(fdef):
+                    if isinstance(n, ast.Name) and n.id in ren:
+                        n.id = ren[n.id]
+                    elif isinstance(n, ast.arg) and n.arg in ren:
+                        n.arg = ren[n.arg]
+                self.fdef = fdef
+                self.loop_ord, self.call_ord = {}, {}
+                return self.verify(contract, fdef, classctx)
         if missing or extra:
             raise StaleContract(f"{self.fname}: parameter list changed (code has {argnames}, "
                                 f"contract has {list(contract.params)})")
@@ -350,6 +367,8 @@ class Engine:
             if _is_dropped_if(s):
                 return [(st, Outcome("normal"))]
             c = self.truth(self.eval(s.test, cx), cx)
+            if z3.is_true(z3.simplify(c)) or z3.is_false(z3.simplify(c)):
+                c = z3.simplify(c)        # `if x is not None` with x bound to None on this path: the dead branch is not explored
             outs = []
             if not z3.is_false(c):
                 st_t = st.fork()
